@@ -13,7 +13,7 @@ prop=$(jq -r .property "$M/meta.json")
 loc=$(jq -r '.demo_location // empty' "$M/meta.json")
 cmd=$(jq -r '.demo_command // empty' "$M/meta.json")
 # keep only the `go test ...` / `go run ...` part (agents often prefix a cp from their worktree)
-cmd=$(echo "$cmd" | grep -oE 'go (test|run)[^;&|]*' | head -1)
+cmd=$(echo "$cmd" | grep -oE 'go (test|run)[^;&|(]*' | head -1)
 demo() { # runs the demo in /repo, returns its exit code
   if [ -f "$M/demo_test.go" ] && [ -n "$loc" ]; then
     cp "$M/demo_test.go" "/repo/$loc/zz_seeded_demo_test.go"
